@@ -210,6 +210,21 @@ static int ecdsa_build(eckey_t *E, int h, int v, long i, etest_t *t)
         snprintf(t->human, sizeof(t->human), "valid signature, digest[%ld] ^= 01 (digest %d bytes, curve %d bytes)", i, t->dlen, E->size);
         break;
     case V_NAMED:
+        if (i == 1 || i == 2)
+        {
+            /* a GENUINE signature over a digest that is 0 mod n: all zero, or (digest length = curve size) n itself */
+            if (i == 1) memset(t->dig, 0, (size_t) t->dlen);
+            else
+            {
+                if (t->dlen != E->size) { rc = NA; break; }
+                BN_bn2binpad(E->n, t->dig, t->dlen);
+            }
+            if (!ec_valid_sig(E, t->dig, t->dlen, 0, r, s)) { rc = -1; break; }
+            t->siglen = der_ecdsa_strict(r, s, t->sig);
+            t->name = i == 1 ? "digest-all-zero" : "digest-equals-group-order";
+            snprintf(t->human, sizeof(t->human), "genuine signature over the digest %s", i == 1 ? "00..00" : "n (the group order)");
+            break;
+        }
         if (i != 0) { rc = NA; break; }
         t->siglen = der_ecdsa_strict(r, s, t->sig);
         t->otherkey = 1;
